@@ -84,3 +84,8 @@ claim("C03",
       "Generated bin tables (1..6 chromosomes, 1..400 bins, centromere gaps, null-coverage edge/interior bins, zero weights, outliers, ignored names) are segmented with none/haar/hmm/hmm-tumor/hmm-germline under every filter combination and 1..16 processes; per chromosome the segments must be sorted, positive, disjoint, inside the input span, hold every surviving bin exactly once with probes equal to the survivors inside, reach the arm's first/last input bin (none, haar), carry weight/depth/gene aggregated over all spanned input bins and (none, HMM) the weighted mean log2 of their survivors; parallel equals serial.",
       "Trusted: the package's filter functions for deciding survivors; harness arm finder; cbs/flasso (R) not installed; one open finding (HMM on <= 3 zero-spread bins) excluded by signature.",
       "DESIGN.md 5/C03")
+claim("C04",
+      "property-based testing (Hypothesis): independent fix_model (coordinate-keyed matching, filters, centring, rolling-median corrections) + metamorphic permutation / rescaling relations",
+      "Generated references (pooled/flat, with/without gc and rmask, bad bins on and beyond every threshold, superset of the sample) and sample target/antitarget tables (subset, empty antitargets, null bins, Picard gc column) are run through do_fix for every subset of corrections; emitted bins, genomic order, class-constant offset (corrections off), exact log2 against the model (tie-free covariates), centring, weight range and monotonicity in size and spread, invariance under row permutation of each input and under depth rescaling, and refusal of missing / duplicated coordinates are checked.",
+      "Trusted: vk/models.py rolling median and median; the edge-density formula restated from its docstring; covariate ties skip the exact-value clause; weights of classes with exactly symmetric residuals are not compared across variants (float tie in biweight_midvariance).",
+      "DESIGN.md 5/C04")
